@@ -230,7 +230,7 @@ CHECKS = {
         "level": "other",
         "ref": "DESIGN.md §5 C09",
         "technique": 'structural rules over the grammar builder from MIR: finite table of the EMPTY filter, adaptor whitelist, provenance of start/AUG/ntidx, guard polarity of meta inheritance, desugar templates vs the documented expansions, memo-key completeness, guarded inserts',
-        "text": 'Decides structural clauses of `the analysed grammar is the one written`: EMPTY filter drops exactly EMPTY references unconditionally; no reordering/dropping; ntidx, start symbol, AUG; meta-data inheritance polarity and order; inline literal resolution; helper rules of ?, *, + equal the documented expansions; helper reuse key covers the separator (known finding); no definition silently dropped (known findings). Late additions: keys that map to one Production field are inherited as one datum (C09-R3 assoc clause), the Layout rule is found by its name as written (C09-R2b; known finding).',
+        "text": 'Decides structural clauses of `the analysed grammar is the one written`: EMPTY filter drops exactly EMPTY references unconditionally; no reordering/dropping; ntidx, start symbol, AUG; meta-data inheritance polarity and order; inline literal resolution; helper rules of ?, *, + equal the documented expansions; helper reuse key covers the separator (known finding); no definition silently dropped (known findings). Late additions: keys that map to one Production field are inherited as one datum (C09-R3 assoc clause), the Layout rule is found by its name as written (C09-R2b; known finding). C09-R4b: the text of a string literal is decoded in one pass (D55, repaired).',
         "note": 'Trusted: rustc MIR; docs/src/grammar_language.md as the spec of the expansions. The bootstrapped parser of the grammar language is not validated here.',
     },
 }
